@@ -182,6 +182,16 @@ theorem channel_synchronised_partial (W : World) (reqs : List (Str × Request))
     exact ih (fun x hx => hc x (by simp [hx])) (fun x hx => hm x (by simp [hx]))
       (fun l hl => hclean l (by simp only [repliesOf, List.flatMap_cons, List.mem_append]; exact Or.inr hl))
 
+/-- **reply_independent_of_history** — helper objects serve many requests, but the reply to a request is a function
+of that request (and of what its action does) alone: whatever was served before it on the same helpers — including
+requests that failed nonfatally — it is answered with exactly `serve W name r`.  (In the code this is the per-request
+re-initialisation of the install coroutines; the check drives long request sequences through one set of helper
+objects to tie the two.) -/
+theorem reply_independent_of_history (W : World) (pre1 pre2 : List (Str × Request)) (nr : Str × Request) :
+    (repliesOf W (pre1 ++ [nr])).drop (repliesOf W pre1).length = (serve W nr.1 nr.2).1 ∧
+    (repliesOf W (pre2 ++ [nr])).drop (repliesOf W pre2).length = (serve W nr.1 nr.2).1 := by
+  constructor <;> simp [repliesOf, List.flatMap_append]
+
 example : Known ["doins".toList, "dodir".toList] ("doins".toList, ⟨[], [], [], [], []⟩) := by unfold Known; decide
 
 end Pkgcore.C32
